@@ -14,7 +14,7 @@ from vf.values import show
 PID = "C09"
 MODES = ["single", "session", "percall"]
 SHAPES = ["truthy", "falsy_len", "falsy_bool", "eq_always_true", "eq_always_false"]
-CREATORS = ["none", "counting", "fails_first", "wrong_type", "returns_subclass"]
+CREATORS = ["none", "counting", "fails_first", "wrong_type", "returns_subclass", "fails_first_typeerror"]
 
 
 class Registry:
@@ -61,6 +61,13 @@ def make_class(mode, shape, creator, reg, server):
                 reg.creator_failures += 1
                 raise RuntimeError("creator fails the first time")
             return clazz()
+    elif creator == "fails_first_typeerror":
+        def cr(*a):         # a creator with a permissive signature whose own code raises TypeError the first time
+            reg.creator_calls += 1
+            if reg.creator_calls == 1:
+                reg.creator_failures += 1
+                raise TypeError("creator's own failure")
+            return a[0]()
     elif creator == "returns_subclass":
         sub = type(cls.__name__ + "Sub", (cls,), {})
 
@@ -178,7 +185,7 @@ def run_histories(unit):
                     expect_fail = False
                     if need_create and creator != "none":
                         m_creator_calls += 1
-                        if creator == "wrong_type" or (creator == "fails_first" and m_creator_calls == 1):
+                        if creator == "wrong_type" or (creator in ("fails_first", "fails_first_typeerror") and m_creator_calls == 1):
                             expect_fail = True
                     if expect_fail:
                         if got[0] == "ok":
@@ -318,6 +325,43 @@ class FakeConn:
         self.pyroInstances = {}
 
 
+def run_after_close(unit):
+    """'exactly one instance per daemon *ever* serves calls': a connection that outlives Daemon.close() (the thread-pool server's workers go
+    on serving established connections after shutdown) is still served by the daemon's one instance. _getInstance is driven directly."""
+    from vf.syncworld import SyncWorld
+    from Pyro5 import server
+    mode, creator = unit
+    st = Stats()
+    gc.disable()
+    w = SyncWorld()
+    try:
+        for nbefore in (1, 2):
+            st.executions += 1
+            reg = Registry()
+            cls = make_class(mode, "truthy", creator, reg, server)
+            d = w.daemon()
+            d.register(cls, "obj")
+            conns = [FakeConn(), FakeConn()]
+            before = [d._getInstance(cls, conns[i % 2]).serial for i in range(nbefore)]
+            w.net.detach_sync(d)
+            d.close()
+            w.daemons.remove(d)
+            after = [d._getInstance(cls, conns[i % 2]).serial for i in range(2)]
+            st.points += nbefore + 3
+            if mode == "single" and len(set(before + after)) != 1:
+                st.violations.append({"fingerprint": "C09|single-instance-replaced-after-daemon-close", "what": "instances %r served before Daemon.close(), %r on the surviving connections afterwards [creator=%s]" % (before, after, creator),
+                                      "replay": {"after_close_unit": [mode, creator]}})
+            if mode == "session" and (after[0] != before[0] or (nbefore == 2 and after[1] != before[1])):
+                st.violations.append({"fingerprint": "C09|session-instance-replaced-after-daemon-close", "what": "before %r after %r" % (before, after), "replay": {"after_close_unit": [mode, creator]}})
+            st.outcomes["after-close:%s:%d" % (mode, reg.serial)] = 1
+            st.states.add((mode, "after-close", creator, nbefore))
+    finally:
+        w.close()
+        gc.enable()
+        gc.collect()
+    return st
+
+
 def make_sched_run(cfg):
     from vf import sched as S
     from vf.memnet import MemNet
@@ -413,6 +457,8 @@ def run(ctx):
         total.merge(st)
     for st in ctx.pmap(run_daemons, [(m, c, 4 if quick else 6) for m in MODES for c in ("none", "counting")]):
         total.merge(st)
+    for st in ctx.pmap(run_after_close, [(m, c) for m in ("single", "session") for c in ("none", "counting")]):
+        total.merge(st)
     scfgs = []
     for shape in ("truthy", "eq_always_false") + (() if quick else ("falsy_len",)):
         for creator in ("none", "counting"):
@@ -447,6 +493,9 @@ def replay(ctx, payload):
     if "sched_cfg" in r:
         res = make_sched_run(r["sched_cfg"])(Chooser([tuple(c) for c in payload["choices"]]))
         return {"violations": res["violations"]}
+    if "after_close_unit" in r:
+        st = run_after_close(tuple(r["after_close_unit"]))
+        return {"violations": [v for v in st.violations if v["fingerprint"] == payload["fingerprint"]]}
     if "daemons_unit" in r:
         st = run_daemons(tuple(r["daemons_unit"]))
         return {"violations": [v for v in st.violations if v["fingerprint"] == payload["fingerprint"]]}
